@@ -84,6 +84,36 @@ def variants(tree, ref_type, rnd):
     return out
 
 
+def sibling_scopes(g, ctx, rnd):
+    """two sibling scopes binding the SAME name over domains of different typification (legal, only a warning); the near-miss
+    variant puts the body written for the first domain under the second one (must be rejected)"""
+    sets = [(n, t) for n, t in ctx.types.items() if n not in ctx.funcs and t != ty.LOGIC and t[0] == 's']
+    pairs = [(a, b) for a in sets for b in sets if a[1] != b[1]]
+    if not pairs:
+        return None
+    (g1, t1), (g2, t2) = rnd.choice(pairs)
+    name = rnd.choice(g.names_pool)
+    bodies = []
+    for t in (t1, t2):
+        body = None
+        for _ in range(6):
+            cand = g.logic([(name, t[1])], rnd.choice([1, 2, 2]))
+            if cand is not None and ty.TypedGen.mentions(cand, name):
+                body = cand
+                break
+        if body is None:
+            return None
+        bodies.append(body)
+    swapped = rnd.random() < 0.4
+    quant = lambda dom, body: N(rnd.choice(['FORALL', 'EXISTS']), None, [N('ID_LOCAL', name), N('ID_GLOBAL', dom), body])
+    if rnd.random() < 0.6:
+        tree = N(rnd.choice(['AND', 'OR', 'IMPLICATION']), None, [quant(g1, bodies[0]), quant(g2, bodies[0] if swapped else bodies[1])])
+    else:
+        decl = lambda dom, body: N('CARD', None, [N('NT_DECLARATIVE_EXPR', None, [N('ID_LOCAL', name), N('ID_GLOBAL', dom), body])])
+        tree = N(rnd.choice(['EQUAL', 'GREATER']), None, [decl(g1, bodies[0]), decl(g2, bodies[0] if swapped else bodies[1])])
+    return tree, ('sibling-swapped-body' if swapped else 'sibling-same-name')
+
+
 def build_cases(rnd, tier, nctx, per_ctx, big=False, mutants=0.25):
     cases = []
     for _ in range(nctx):
@@ -95,7 +125,10 @@ def build_cases(rnd, tier, nctx, per_ctx, big=False, mutants=0.25):
         for _ in range(per_ctx):
             tree = g.expression(rnd.choice([1, 2, 2, 3, 3, 4]))
             mut = 'none'
-            if rnd.random() < mutants:
+            sib = sibling_scopes(g, ctx, rnd) if rnd.random() < 0.1 else None
+            if sib is not None:
+                tree, mut = sib
+            elif rnd.random() < mutants:
                 tree, mut = ty.mutate(tree, g, rnd)
             if rnd.random() < 0.08 and not rg.is_logic(tree):
                 tree = N('PUNC_DEFINE', None, [N('ID_GLOBAL', 'D9'), tree])
